@@ -116,6 +116,27 @@ let check_line (line : string) : unit =
                   | _ -> ());
                  (* C08: shared xor exclusive, as far as the probe shows: class 0,1,2 only *)
                  List.iter (fun c -> if c <> "-" && not (List.mem c.[0] ['0'; '1'; '2']) then oracle "borrow_class" i) (split_on ',' rprobe);
+                 (* C09: insert replaces at ITS key, remove empties ITS key, entry touches only (ty, 0); every other slot —
+                    in particular the same type under another dynamic id — is untouched (compared on the REAL probes) *)
+                 (let key_of = function
+                    | OInsert (ty, k, _) when ty = fst k -> Some k | ORemove (ty, k) when ty = fst k -> Some k
+                    | OEntry (ty, _) -> Some (ty, N0) | _ -> None in
+                  match key_of o with
+                  | Some k when rout <> "pe" && prev <> "" ->
+                      let idx = int_of_n (fst k) * ndyn + int_of_n (snd k) in
+                      let pl = split_on ',' prev and nl = split_on ',' rprobe in
+                      List.iteri (fun j c -> if j <> idx && (try List.nth pl j with _ -> "") <> c then oracle "other_slots_untouched" i) nl;
+                      let here = try List.nth nl idx with _ -> "?" in
+                      (match o with
+                       | OInsert (_, _, (s, p)) ->
+                           if rout = "u" && here <> Printf.sprintf "0:%d.%d" (int_of_n s) (int_of_n p) then oracle "insert_replaces" i
+                       | ORemove _ -> if here <> "-" then oracle "remove_empties" i
+                       | OEntry (_, (s, p)) ->
+                           let before = try List.nth pl idx with _ -> "?" in
+                           if before <> "-" && here <> before then oracle "entry_never_overwrites" i;
+                           if before = "-" && here <> Printf.sprintf "0:%d.%d" (int_of_n s) (int_of_n p) then oracle "entry_inserts" i
+                       | _ -> ())
+                  | _ -> ());
                  (* C09: a mismatching type argument panics *)
                  (match o with
                   | OInsert (ty, k, _) | ORemove (ty, k) | OFetchOp ((FTryById | FTryMutById), ty, k) ->
